@@ -133,11 +133,12 @@ pub struct RandomDirector {
     cur_op: String,
     cur_cancel_safe: bool,
     rx: usize,
-    polls_since_progress: u32,
+    downgrade: bool,
+    force_drop: bool,
 }
 
 impl RandomDirector {
-    pub fn new(seed: u64, p: Profile, rx: usize) -> Self {
+    pub fn new(seed: u64, p: Profile, rx: usize, downgrade: bool) -> Self {
         let calls = p.calls;
         Self {
             rng: StdRng::seed_from_u64(seed),
@@ -161,7 +162,8 @@ impl RandomDirector {
             cur_op: String::new(),
             cur_cancel_safe: true,
             rx,
-            polls_since_progress: 0,
+            downgrade,
+            force_drop: false,
         }
     }
 
@@ -661,7 +663,12 @@ impl Director for RandomDirector {
             .as_array()
             .map(|h| h.iter().all(|s| s != "p"))
             .unwrap_or(true);
-        let _ = (op, result);
+        let _ = op;
+        // D12: a connection from the non-benign phase may carry a Maximum Packet Size below a
+        // retained packet; the benign continuation reconnects (a benign broker announces none)
+        if self.benign && result["err"] == "PacketTooLarge" {
+            self.force_drop = true;
+        }
         self.last_pending = ' ';
         self.consecutive_pend = 0;
     }
@@ -691,7 +698,8 @@ impl Director for RandomDirector {
                 self.cur_op = "conn".into();
                 return TopDec::Call(Step::Conn { healthy: true });
             }
-            if !view.live {
+            if !view.live || self.force_drop {
+                self.force_drop = false;
                 return TopDec::DropConn;
             }
             self.drain_polls += 1;
@@ -727,7 +735,10 @@ impl Director for RandomDirector {
         }
         self.calls_left -= 1;
         let call = self.gen_call();
-        self.cur_cancel_safe = !matches!(&call, Step::Publish { qos: 0, .. });
+        // QoS 0 publishes are documented as not cancel-safe; with auto-downgrade any publish may
+        // become one
+        self.cur_cancel_safe = !matches!(&call, Step::Publish { qos: 0, .. })
+            && !(self.downgrade && matches!(&call, Step::Publish { .. }));
         self.cur_op = match &call {
             Step::Poll {} => "poll",
             Step::Recv {} => "recv",
